@@ -11,8 +11,9 @@ from . import schema_common as sc
 
 PROP = "C06"
 IMPORTS = sc.IMPORTS
-THEOREMS = []
-FACT_LEMMAS = []
+THEOREMS = ['C06_model_is_spec', 'C06_conj', 'C06_sorted', 'C06_perm']
+FACT_LEMMAS = ['Tie.tie_build', 'Tie.tie_call', 'C01Proof.caught_call_ok']
+DEPENDS = ['Py.v', 'Lang.v', 'Defs.v', 'Cond.v', 'Dsl.v', 'Check.v', 'DocSem.v', 'Inst.v', 'Gen/TablesGen.v', 'Gen/CallablesGen.v', 'Proofs/Tie.v', 'Proofs/PyFacts.v', 'Proofs/C01Proof.v', 'Proofs/C02Proof.v', 'Path.v', 'PathSpec.v', 'Run.v', 'Proofs/C03Proof.v', 'Proofs/C04Proof.v', 'Cast.v', 'RuleDefs.v', 'RuleSpec.v', 'RuleTerms.v', 'Rule.v', 'RunRule.v', 'Proofs/RuleProof.v', 'Proofs/SchemaSpecProof.v', 'Properties/C06.v']
 ASSUMPTIONS = ["Layer P models CPython's operators (pysem)",
                "the report text depends on repr(); only 'is a str' and 'names every failing path' are checked, by the harness"]
 
